@@ -111,6 +111,7 @@ def rounding_rule(rep, prog):
         """re-labels C20.F7 as C04.J4 for this property's evidence"""
         def __init__(self, rep_):
             self.r = rep_
+            self.notes = rep_.notes
 
         def inst(self, rule, what, **kw):
             self.r.inst("C04.J4", what, **kw)
